@@ -25,7 +25,7 @@ impl Monitor for C07 {
     fn sizes(&self, tier: Tier) -> Sizes { match tier { Tier::Quick => Sizes { cases: 4_000, min_nontrivial: 8_000 }, Tier::Thorough => Sizes { cases: 200_000, min_nontrivial: 400_000 } } }
 
     fn generate(&self, rng: &mut Rng, _tier: Tier) -> J {
-        let (mut case, _t, sel, _shape) = gen_base(rng, &BaseCfg { shapes: &[Shape::Plain, Shape::Plain, Shape::Distinct, Shape::Aggregate, Shape::Join, Shape::JoinAggregate], allow_limit: false, allow_having: true, agg_distinct: false, order_insensitive_only: false, exact_data: true, min_lines: 0, max_lines: 14, not_null_column: false, big_rate: 300, big_lines: 600 });
+        let (mut case, _t, sel, _shape) = gen_base(rng, &BaseCfg { shapes: &[Shape::Plain, Shape::Plain, Shape::Distinct, Shape::Aggregate, Shape::Join, Shape::JoinAggregate], allow_limit: false, allow_having: true, agg_distinct: true, order_insensitive_only: false, exact_data: true, min_lines: 0, max_lines: 14, not_null_column: false, big_rate: 300, big_lines: 600 });
         let n = case["lines"].as_array().map(|a| a.len()).unwrap_or(0);
         let k = 1 + rng.below(3);
         let mut cuts: Vec<usize> = (0..k - 1).map(|_| rng.below(n + 1)).collect();
@@ -94,6 +94,22 @@ impl Monitor for C07 {
             if got != want {
                 let kind = if got.len() > want.len() { "extra-records" } else if got.len() < want.len() { "missing-records" } else { "records-differ" };
                 push(kind, format!("{:?} LIMIT {} over {} files: {} records, expected the first {} of {}: got {:?}", base.sql, n, files.len(), got.len(), want.len(), rows, got.iter().take(3).collect::<Vec<_>>()), &mut vs);
+            }
+            if aggregate && base.lines.len() <= 60 && (n == 1 || n == 2 || n as usize == rows) && out.result.is_ok() {
+                // batch mode, the result asked for more than once from the same engine (after a prefix, after all lines, and once
+                // more): every one of them is "the first n groups of the full result" of the lines read so far
+                let mut s = sel.clone(); s.limit = Some(n);
+                if let Ok(p) = base.prepare_with(&s.text(Paren::Full), base.joined.as_deref(), "r") {
+                    let cut = (crate::rng::mix(&[base.tag, n]) as usize) % (base.lines.len() + 1);
+                    obs.evals += 1;
+                    if let (Ok(tables), Ok(prefix), Ok(all)) = (eng::exec_batch_results(&base.tables, &p.stmt, &base.lines, cut), base.batch(&p, &base.lines[..cut]), base.batch(&p, &base.lines)) {
+                        obs.hit("limit:result-asked-twice");
+                        let wants = [&prefix, &all, &all];
+                        for (i, (t, w)) in tables.iter().zip(wants.iter()).enumerate() {
+                            if !identical_rows(t, w) { push("repeated-result-differs", format!("{:?} LIMIT {}: result no. {} of one engine (prefix of {} lines, then all {}, then again) has {} rows, a fresh batch run over the same lines {}", base.sql, n, i + 1, cut, base.lines.len(), t.rows.len(), w.rows.len()), &mut vs); break; }
+                        }
+                    }
+                }
             }
             if aggregate {
                 if out.total_lines != base.lines.len() as u64 { push("aggregate-did-not-read-everything", format!("LIMIT {}: total_lines {} of {}", n, out.total_lines, base.lines.len()), &mut vs); }
